@@ -10,6 +10,9 @@ THEOREMS = [
     "Mpir.Binvert.binvert_schedule_ok",
     "Mpir.Binvert.mpn_binvert_correct",
     "Mpir.Binvert.binvert_npows_ok",
+    "Mpir.Binvert.mpn_binvert_correct_pinned",
+    "Mpir.Binvert.mpn_binvert_value",
+    "Mpir.Binvert.mipOf_eq_mpn_binvert",
 ]
 TRUSTED = ["hand-written model lean/Mpir/Model/Binvert.lean (schedule, base case, Newton step, last step, mpn_sb_bdiv_q loop for nn = dn); "
            "tied by the exact op bi_binvert (all n limbs, guard limbs around rp, up and the itch-sized scratch) and the predicate op bi_binvert_p"]
